@@ -171,6 +171,45 @@ pub fn castle_pin_fens() -> Vec<String> {
     v
 }
 
+/// (f) small endgames, placed at random but with the features endgame knowledge keys on: a bare king in or next to a corner,
+///     pawns on the rook files, bishops of either square colour, every signature both ways round and with either side to move
+pub fn endgame_fens(seed: u64) -> Vec<String> {
+    let mut rng = Rng(seed.wrapping_mul(0x9E37_79B9_7F4A_7C15).wrapping_add(17));
+    let sigs: [&str; 18] = ["B", "N", "BP", "NP", "BB", "NN", "BN", "P", "PP", "R", "Q", "RP", "BPP", "NPP", "RB", "RN", "QP", "BBP"];
+    let corners = [0usize, 7, 56, 63, 1, 8, 6, 15, 48, 57, 55, 62, 9, 14, 49, 54];
+    let mut v = vec![];
+    for sig in sigs {
+        for _ in 0..14 {
+            let mut g = [None::<char>; 64];
+            let bk = corners[rng.below(corners.len() as u64) as usize];
+            g[bk] = Some('k');
+            let mut put = |g: &mut [Option<char>; 64], c: char, rng: &mut Rng| {
+                for _ in 0..200 {
+                    let s = if c == 'P' {
+                        // mostly rook files
+                        let f = if rng.below(4) != 0 { [0usize, 7][rng.below(2) as usize] } else { rng.below(8) as usize };
+                        (1 + rng.below(6) as usize) * 8 + f
+                    } else {
+                        rng.below(64) as usize
+                    };
+                    if g[s].is_none() {
+                        g[s] = Some(c);
+                        return;
+                    }
+                }
+            };
+            put(&mut g, 'K', &mut rng);
+            for c in sig.chars() {
+                put(&mut g, c, &mut rng);
+            }
+            for turn in ["w", "b"] {
+                v.push(format!("{} {} - - 0 1", grid_placement(&g), turn));
+            }
+        }
+    }
+    v
+}
+
 /// (c) every piece kind of either colour on every square it can stand on, with bare kings, its owner to move: the caller
 ///     plays every move of these positions (the piece leaves the square, is captured on it when next to the enemy king,
 ///     kings step around it): every (kind, square) word of the incremental key is added or removed at least once.
@@ -315,6 +354,33 @@ impl<W: Write> Emit<W> {
         let legal = b.get_legal_moves();
         let l: Vec<String> = legal.iter().map(|m| format!("{}={}", m.to_notation(), move_fields(m))).collect();
         writeln!(self.out, "L {}", l.join(" ")).unwrap();
+        // the move orderer on this position's generated list, with a cache move and two killers picked from the list itself
+        // (the orderer must hand out every generated move exactly once, the cached move first, in the model's order)
+        if !all.is_empty() {
+            use crate::board::transposition_table::{Bounds, TTEntry, TRANSPOSITION_TABLE};
+            
+            let n = all.len();
+            let p = self.positions as usize;
+            let (tm, k1, k2) = (all[(p * 7) % n], all[(p * 3 + 1) % n], all[(p * 5 + 2) % n]);
+            let with_tt = p % 3 != 0;
+            if with_tt {
+                TRANSPOSITION_TABLE.write().unwrap().insert(b.zkey, TTEntry { score: 0, depth: 1, bound: Bounds::Exact, best_ply: tm });
+            }
+            let killers = [Some(k1), if p % 2 == 0 { Some(k2) } else { None }];
+            let ordered: Vec<String> = crate::search::verif::order_moves(&all, b.zkey, &killers).iter().map(move_fields).collect();
+            if with_tt {
+                TRANSPOSITION_TABLE.write().unwrap().remove(&b.zkey);
+            }
+            writeln!(
+                self.out,
+                "O {} {} {} | {}",
+                if with_tt { move_fields(&tm) } else { "-".to_string() },
+                move_fields(&k1),
+                if p % 2 == 0 { move_fields(&k2) } else { "-".to_string() },
+                ordered.join(" ")
+            )
+            .unwrap();
+        }
         let after = bv::dump(b);
         if after == before {
             writeln!(self.out, "A same").unwrap();
@@ -548,7 +614,10 @@ pub fn walk(args: &[String]) {
     // structured families, both colours; a member that is not a position of a legal game (the side that has just moved in check) is dropped
     if arg::<u64>(args, "matrix", 1) == 1 {
         let mut idx = 0u64;
-        for fen in matrix_fens().into_iter().chain(pin_fens()) {
+        let crowded = ["R6R/3Q4/1Q4Q1/4Q3/2Q4Q/Q4Q2/pp1Q4/kBNN1KB1 w - - 0 1".to_string(),
+            "QQQN1brk/3QQ1pp/1Q3ppp/Q6Q/2Q2Q2/Q6Q/1Q4Q1/KQ1QQ1Q1 w - - 0 1".to_string(),
+            "3Q4/1Q4Q1/4Q3/2Q4R/Q4Q2/3Q4/1Q4Rp/1K1BBNNk w - - 0 1".to_string()];
+        for fen in matrix_fens().into_iter().chain(pin_fens()).chain(endgame_fens(seed)).chain(crowded) {
             for fen in [fen.clone(), mirror_fen(&fen)] {
                 idx += 1;
                 if idx % of != shard {
@@ -619,6 +688,41 @@ pub fn walk(args: &[String]) {
                 b = Board::from_fen(&fen);
                 depth_stack = 0;
                 continue;
+            }
+            if r == 14 && depth_stack + 32 < 4000 {
+                // a long shuffle: both sides move a piece out and back, seven times over — the same position comes up for the
+                // eighth time (counts that saturate, are clamped or are decremented once too often show here)
+                let quiet = |b: &mut Board| -> Option<Ply> {
+                    b.get_legal_moves().into_iter().find(|m| m.captured_piece.is_none() && m.promoted_to.is_none() && !m.is_castles && !matches!(m.piece, Kind::Pawn(_)) && !matches!(m.piece, Kind::King(_)) && !matches!(m.piece, Kind::Rook(_)))
+                };
+                let back = |b: &mut Board, m: &Ply| -> Option<Ply> {
+                    b.get_legal_moves().into_iter().find(|x| x.start == m.dest && x.dest == m.start && x.captured_piece.is_none() && x.promoted_to.is_none())
+                };
+                if b.get_halfmove_clock() < 60 {
+                    let mut ok = true;
+                    'outer: for _ in 0..7 {
+                        let Some(a) = quiet(&mut b) else { ok = false; break };
+                        writeln!(e.out, "M {}", move_fields(&a)).unwrap();
+                        b.make_move(a);
+                        depth_stack += 1;
+                        e.block(&mut b);
+                        let Some(c) = quiet(&mut b) else { ok = false; break };
+                        writeln!(e.out, "M {}", move_fields(&c)).unwrap();
+                        b.make_move(c);
+                        depth_stack += 1;
+                        e.block(&mut b);
+                        for m in [a, c] {
+                            let Some(x) = back(&mut b, &m) else { ok = false; break 'outer };
+                            writeln!(e.out, "M {}", move_fields(&x)).unwrap();
+                            b.make_move(x);
+                            depth_stack += 1;
+                            e.block(&mut b);
+                        }
+                    }
+                    let _ = ok;
+                    ply += 28;
+                    continue;
+                }
             }
             if r < 14 {
                 // knight / king shuffle to create repeated positions: try to undo the last own move geometrically
